@@ -82,3 +82,6 @@ M("c01-done-callback-overwrites-outcome", "C01", A, "TaskGroup._spawn.task_done"
 
 # from seeded change C01/e (round 3)
 M("c01-delivery-done-on-non-future", "C01", A, "CancelScope._deliver_cancellation", "if not isinstance(waiter, asyncio.Future) or not waiter.done():", "if waiter is None or not waiter.done():", ["R01-j"])
+
+# from seeded change C01/f (round 3)
+M("c01-aexit-cancel-reason-formats-exception", "C01", A, "TaskGroup.__aexit__", "            if exc_val is not None:\n                self.cancel_scope.cancel()\n", "            if exc_val is not None:\n                self.cancel_scope.cancel(f\"task group body raised {exc_val}\")\n", ["R01-k"])
